@@ -181,6 +181,7 @@ Proof.
     rewrite <- not_forwarded_parse, fwd_visible_not_forwarded in Hpr.
     apply list_pair_eqb_nil in Hpr. rewrite Hpr. reflexivity.
 Qed.
+Print Assumptions check_coherent.
 
 (** the same for a history: every step whose oracles are well-formed and whose observation is the model's
     prediction satisfies the property predicate *)
@@ -192,3 +193,4 @@ Proof.
   unfold check1 in *. cbn [v_corr v_prop] in *.
   repeat (apply andb_true_iff in Hc as [Hc ?]). apply check_coherent; assumption.
 Qed.
+Print Assumptions check_history_coherent.
